@@ -136,6 +136,20 @@ def opCalibRateCode : P String := do
     | none => return "ok none"
     | some (i, thr) => return s!"ok {i} {Wire.render thr}"
 
+/-- C16: the code's `f_beta` route (Float twin): position and stored threshold -/
+def opCalibFbetaCode : P String := do
+  let n ← nat
+  let ds ← arr Float n
+  let ls ← intArr n
+  let beta ← scalar Float
+  finish
+  match labelsOf ls with
+  | .error e => throw e
+  | .ok labels =>
+    match calibrateFbetaCode beta (ds.toList.zip labels) with
+    | none => return "ok none"
+    | some (i, thr) => return s!"ok {i} {Wire.render thr}"
+
 def opValidateCalib : P String := do
   let strat ← next
   let rd : P (PyNum Rat) := do
@@ -533,6 +547,7 @@ def dispatch : P String := do
   | "calib" => opCalib
   | "calib_code" => opCalibCode
   | "calib_rate_code" => opCalibRateCode
+  | "calib_fbeta_code" => opCalibFbetaCode
   | "validate_calib" => opValidateCalib
   | _ => throw s!"unknown op {op}"
 
